@@ -4,8 +4,10 @@
 //!                                                          statement and for the "; "-joined script
 //!   rtx content   < {dialect, sql, unescape, trailing}  -> multiset of content tokens of the input
 //!                                                          vs of the printed script
-//!   rtx splice    < {dialect, sql, expr, seed[, unescape, trailing]}
-//!                                                       -> replace one Number / '..' token by (expr),
+//!   rtx splice    < {dialect, sql, expr, seed[, unescape, trailing, sites, paren]}
+//!                                                       -> replace one token (sites: "num" Number, "str" '..'
+//!                                                          literal, "ident" unquoted non-keyword word; default
+//!                                                          num+str) by (expr) (paren=false: by expr as is),
 //!                                                          then both checks on the mutated text
 //!
 //! One JSON line per case; every case runs under catch_unwind.
@@ -412,8 +414,20 @@ fn splice(d: &dyn Dialect, c: &Value) -> Value {
         Err(_) => return json!({"status": "untokenizable"}),
     };
     let offs = token_offsets(sql, &toks);
+    // which tokens may be replaced: "num" (Number), "str" ('..' literal), "ident" (unquoted non-keyword word)
+    let kinds: Vec<String> = match c["sites"].as_array() {
+        Some(a) => a.iter().filter_map(|x| x.as_str().map(|s| s.to_string())).collect(),
+        None => vec!["num".into(), "str".into()],
+    };
+    let paren = c["paren"].as_bool().unwrap_or(true);
+    let wanted = |t: &Token| match t {
+        Token::Number(_, _) => kinds.iter().any(|k| k == "num"),
+        Token::SingleQuotedString(_) => kinds.iter().any(|k| k == "str"),
+        Token::Word(w) => w.quote_style.is_none() && w.keyword == Keyword::NoKeyword && kinds.iter().any(|k| k == "ident"),
+        _ => false,
+    };
     let sites: Vec<usize> = toks.iter().enumerate()
-        .filter(|(i, t)| matches!(t.token, Token::Number(_, _) | Token::SingleQuotedString(_)) && offs[*i] != usize::MAX && offs[*i + 1] != usize::MAX && offs[*i] < offs[*i + 1])
+        .filter(|(i, t)| wanted(&t.token) && offs[*i] != usize::MAX && offs[*i + 1] != usize::MAX && offs[*i] < offs[*i + 1])
         .map(|(i, _)| i).collect();
     if sites.is_empty() {
         return json!({"status": "no-site"});
@@ -422,9 +436,13 @@ fn splice(d: &dyn Dialect, c: &Value) -> Value {
     let i = sites[rng.below(sites.len() as u64) as usize];
     let chars: Vec<char> = sql.chars().collect();
     let mut m: String = chars[..offs[i]].iter().collect();
-    m.push('(');
+    if paren {
+        m.push('(');
+    }
     m.push_str(expr);
-    m.push(')');
+    if paren {
+        m.push(')');
+    }
     m.extend(chars[offs[i + 1]..].iter());
     match parse_caught(d, &m, unescape, trailing) {
         Err(e) => json!({"status": "panic", "mutated": m, "detail": format!("parse panicked: {e}")}),
